@@ -14,6 +14,10 @@ for c in m["checks"]:
         e = json.load(open(f)); jsonschema.validate(e, es); cv = e["coverage"]
         assert cv["obligations"] == cv["discharged"] >= 1, "discharged %s != obligations %s" % (cv["discharged"], cv["obligations"])
         assert e["violations"] == 0 and not cv.get("broken"), "evidence of a failing run: %s" % cv.get("broken")
+        ax = [t for t in cv.get("trusted_base", []) if t.startswith("Axioms")]
+        assert not ax, "theorem depends on axioms: %s" % ax[0][:120]
+        closed = sum(1 for t in cv.get("trusted_base", []) if t.startswith("Closed under the global context"))
+        assert closed >= cv["obligations"], "Print Assumptions outputs (%d) fewer than theorems (%d)" % (closed, cv["obligations"])
     except Exception as x:
         bad += 1; print("BAD", f, str(x)[:200])
 print("evcheck: %d checks, %d bad" % (len(m["checks"]), bad)); sys.exit(1 if bad else 0)
